@@ -17,6 +17,9 @@ CFG = {
         "Leptos.Ambient.C20_owner_already_current",
         "Leptos.Ambient.C20_owner_current_witness",
         "Leptos.Ambient.C20_assembly_witness",
+        "Leptos.Ambient.C20_cleanup_arena_witness",
+        "Leptos.Ambient.C20_memo_rerun_witness",
+        "Leptos.Ambient.runSteps_cleanup",
         "Leptos.Ambient.poll_core",
         "Leptos.Ambient.runSteps_guarded",
         "Leptos.Ambient.pollTask_arena",
@@ -33,7 +36,9 @@ CFG = {
     "trivial_tags": ["plain", "in-order", "ooo", "for", "provider", "router", "effect"],
     "rule": "pairs (70%) and triples (30%) of view programs over leaf / eager leaf / on_cleanup / Provider / Suspend(gate) / Suspense / "
             "Resource(gate) / OnceResource, ArcOnceResource, blocking and Arc resources, AsyncDerived, ArcAsyncDerived, LocalResource / spawn_local_scoped task / "
-            "Action dispatched while rendering / Effect::new_isomorphic / Resource, ArcResource, AsyncDerived, ArcAsyncDerived whose fetcher RE-RUNS (source set in the same render = before the task's first poll, "
+            "Action dispatched while rendering / Effect::new_isomorphic / a Resource SOURCE function and a plain memo (own scope) whose body reads context, re-evaluated after their signal changed "
+            "(by the resource task at the executor's top level; by a bare handler-side future) / on_cleanup functions reading an arena handle run WITHOUT a drop (Owner::cleanup(), memo re-run) from the "
+            "handler's top level while the other request's arena is current / Resource, ArcResource, AsyncDerived, ArcAsyncDerived whose fetcher RE-RUNS (source set in the same render = before the task's first poll, "
             "set later, refetch()) reporting in its sync part, async part and after its await / bodies behind both Sandboxed entry points (a user stream chained behind the app stream inside the response body's "
             "Sandboxed = Stream::poll_next; reactive_graph::spawn tasks = Future::poll) reading arena handles with and without an owner entered / arena items (RwSignal, StoredValue) allocated in a child owner and read after a later await / "
             "For / fragment (every async leaf's future reports AFTER its own await), nested to depth 3 (4 in thorough), one case in three renders the SAME page in every request (same arena keys), one request in four routed (Router + FlatRoutes or Routes, the program being the matched route's view), in-order / out-of-order streaming or ASYNC rendering mode (whole app awaited, then the hydration chunks requested), rendered CONCURRENTLY on one "
